@@ -883,6 +883,17 @@ func (p *NewForm) typecheckForm(gammaNameTypesCtx NamesTypesCtx, providerShadowN
 			functionSignatureType := types.CopyType(functionSignature.Type)
 			functionSignatureType = types.Unfold(functionSignatureType, labelledTypesEnv)
 
+			// An explicit annotation (x : A <- new f(...)) must agree with the type the function provides
+			if p.new_name_c.Type != nil {
+				types.AddMissingModalities(&p.new_name_c.Type, labelledTypesEnv)
+				if err := checkNameType(p.new_name_c, labelledTypesEnv); err != nil {
+					return TypeErrorf("invalid type for %s in %s: %s", p.new_name_c.String(), p.StringShort(), err)
+				}
+				if !types.EqualType(p.new_name_c.Type, functionSignatureType, labelledTypesEnv) {
+					return TypeErrorf("type of '%s' is declared as '%s' in %s, but %s provides '%s'", p.new_name_c.String(), p.new_name_c.Type.String(), p.StringShort(), callForm.functionName, functionSignatureType.String())
+				}
+			}
+
 			// Check for declaration of independence: (Γ ⪰ m)
 			// Γ (gammaLeftNameTypesCtx) ⪰ m (type of p.continuation_c)
 			err := declationOfIndependence(gammaLeftNameTypesCtx.getNames(), functionSignatureType)
